@@ -36,6 +36,8 @@
   a session unknown to the router / whose realm was removed     C11_unknown_session
   changes nothing and observes nothing
   attaching a session to A: B ≠ A unchanged, observed only A    C11_join_frame, C11_join_observed
+  a realm template creates at most the one realm the joining    C11_template_creates_only_named
+  session named, only when it was absent
   every realm holds only sessions joined to it; names distinct  C11_inv_step, C11_inv_reachable
   (the invariant, preserved by every operation)
   a session is held by at most one realm, and its operations    C11_sessions_partitioned,
@@ -148,40 +150,92 @@ theorem C11_noninterference (rt₁ rt₂ : Router) (k : SessKey) (op : Realm.Op)
 
 /-! ## Attaching a session -/
 
-/-- Attaching a session to realm `A` leaves every other realm unchanged; the session→realm map
+/-- Attaching a session to realm `A` leaves every realm that existed before and is not named `A`
+    unchanged; the table of realm names is kept, or extended at the end by `A` itself (on-demand
+    creation from the realm template, see `C11_template_creates_only_named`); the session→realm map
     only grows (by `(k, A)`, when the join is accepted). -/
 theorem C11_join_frame (rt : Router) (A : String) (k : SessKey) (isLocal : Bool) (details : Dict)
     (roles : Roles) (cap : Nat) :
     (rt.step (.join A k isLocal details roles cap)).2.others A = rt.others A ∧
-    (rt.step (.join A k isLocal details roles cap)).2.realms.map (·.1) = rt.realms.map (·.1) ∧
+    ((rt.step (.join A k isLocal details roles cap)).2.realms.map (·.1) = rt.realms.map (·.1) ∨
+     (rt.step (.join A k isLocal details roles cap)).2.realms.map (·.1) = rt.realms.map (·.1) ++ [A]) ∧
     ((rt.step (.join A k isLocal details roles cap)).2.sessRealm = rt.sessRealm ∨
      (rt.step (.join A k isLocal details roles cap)).2.sessRealm = rt.sessRealm ++ [(k, A)]) := by
-  cases hc : rt.closed with
-  | true => rw [step_join_closed hc]; exact ⟨rfl, rfl, Or.inl rfl⟩
+  have hnames : (rt.ensureRealm A).realms.map (·.1) = rt.realms.map (·.1) ∨
+      (rt.ensureRealm A).realms.map (·.1) = rt.realms.map (·.1) ++ [A] := by
+    rcases (ensureRealm_fields rt A).2.2.2 with h | ⟨_, r, h⟩
+    · exact Or.inl (by rw [h])
+    · exact Or.inr (by rw [h]; simp)
+  have hsess := (ensureRealm_fields rt A).1
+  cases hc : (rt.closed || A == "") with
+  | true => rw [step_join_refused hc]; exact ⟨rfl, Or.inl rfl, Or.inl rfl⟩
   | false =>
-    cases hr : rt.realm? A with
-    | none => rw [step_join_none hr]; exact ⟨rfl, rfl, Or.inl rfl⟩
+    cases hr : (rt.ensureRealm A).realm? A with
+    | none => rw [step_join_none hc hr]; exact ⟨others_ensureRealm rt A, hnames, Or.inl hsess⟩
     | some r =>
       rw [step_join_some hc hr]
-      exact ⟨others_setRealm _ _ _, names_setRealm _ _ _, Or.inr rfl⟩
+      refine ⟨(others_setRealm _ _ _).trans (others_ensureRealm rt A), ?_, Or.inr (by rw [hsess])⟩
+      have : ({ (rt.ensureRealm A).setRealm A (r.step (.join k isLocal details roles cap)).2 with
+            sessRealm := (rt.ensureRealm A).sessRealm ++ [(k, A)] } : Router).realms.map (·.1) =
+          (rt.ensureRealm A).realms.map (·.1) := names_setRealm _ _ _
+      rw [this]
+      exact hnames
+
+/-- On-demand realm creation (`Config.RealmTemplate`).  A join to `A` adds AT MOST ONE realm to the
+    table, at the end, and it is named `A`; this happens only if no realm `A` existed, a template
+    is configured, the router is open, `A ≠ ""`, and `Realm.create` accepts the template under the
+    name `A`.  Every other operation that is not `addRealm` adds none (`C11_frame`,
+    `C11_remove_add`, `C11_tick`, `C11_close`).  So a template never creates or touches a realm
+    other than the one the joining session named. -/
+theorem C11_template_creates_only_named (rt : Router) (A : String) (k : SessKey) (isLocal : Bool) (details : Dict)
+    (roles : Roles) (cap : Nat) :
+    (rt.step (.join A k isLocal details roles cap)).2.realms.map (·.1) = rt.realms.map (·.1) ∨
+    ((rt.step (.join A k isLocal details roles cap)).2.realms.map (·.1) = rt.realms.map (·.1) ++ [A] ∧
+      rt.realm? A = none ∧ (rt.closed || A == "") = false ∧
+      ∃ t r, rt.template = some t ∧ Realm.create { t with uri := A } = some r) := by
+  have hnames : (rt.ensureRealm A).realms.map (·.1) = rt.realms.map (·.1) ∨
+      ((rt.ensureRealm A).realms.map (·.1) = rt.realms.map (·.1) ++ [A] ∧ rt.realm? A = none ∧
+        ∃ t r, rt.template = some t ∧ Realm.create { t with uri := A } = some r) := by
+    rcases ensureRealm_cases rt A with h | ⟨hn, t, r, ht, hcr, h⟩
+    · exact Or.inl (by rw [h])
+    · exact Or.inr ⟨by rw [h]; simp, hn, t, r, ht, hcr⟩
+  cases hc : (rt.closed || A == "") with
+  | true => rw [step_join_refused hc]; exact Or.inl rfl
+  | false =>
+    have key : (rt.step (.join A k isLocal details roles cap)).2.realms.map (·.1) = (rt.ensureRealm A).realms.map (·.1) := by
+      cases hr : (rt.ensureRealm A).realm? A with
+      | none => rw [step_join_none hc hr]
+      | some r => rw [step_join_some hc hr]; exact names_setRealm _ _ _
+    rw [key]
+    rcases hnames with h | ⟨h1, h2, h3⟩
+    · exact Or.inl h
+    · exact Or.inr ⟨h1, h2, rfl, h3⟩
+
+-- non-vacuity: without a template (the default) a join never adds a realm
+example (rt : Router) (h : rt.template = none) (A : String) : rt.ensureRealm A = rt := by
+  rcases ensureRealm_cases rt A with e | ⟨_, t, _, ht, _, _⟩
+  · exact e
+  · rw [h] at ht; cases ht
 
 /-- What a join makes observable (e.g. `wamp.session.on_join` events) concerns sessions attached
-    to `A` only (the joining session included). -/
+    to `A` only (the joining session included) — also when `A` has just been created from the
+    template. -/
 theorem C11_join_observed (rt : Router) (hi : rt.Inv) (A : String) (k : SessKey) (isLocal : Bool)
     (details : Dict) (roles : Roles) (cap : Nat) :
     (∀ q ∈ (rt.step (.join A k isLocal details roles cap)).1.out,
         (rt.step (.join A k isLocal details roles cap)).2.joined A q.1) ∧
     (∀ k' ∈ (rt.step (.join A k isLocal details roles cap)).1.closed,
         (rt.step (.join A k isLocal details roles cap)).2.joined A k') := by
-  cases hc : rt.closed with
-  | true => rw [step_join_closed hc]; exact ⟨fun _ hq => (nomatch hq), fun _ hq => (nomatch hq)⟩
+  cases hc : (rt.closed || A == "") with
+  | true => rw [step_join_refused hc]; exact ⟨fun _ hq => (nomatch hq), fun _ hq => (nomatch hq)⟩
   | false =>
-    cases hr : rt.realm? A with
-    | none => rw [step_join_none hr]; exact ⟨fun _ hq => (nomatch hq), fun _ hq => (nomatch hq)⟩
+    have hi' : (rt.ensureRealm A).Inv := hi.ensureRealm A
+    cases hr : (rt.ensureRealm A).realm? A with
+    | none => rw [step_join_none hc hr]; exact ⟨fun _ hq => (nomatch hq), fun _ hq => (nomatch hq)⟩
     | some r =>
       rw [step_join_some hc hr]
-      have h0 : Conf (fun k' => (k', A) ∈ rt.sessRealm ++ [(k, A)]) r :=
-        (hi.conf _ (realm?_mem hr)).mono (fun k' hk' => List.mem_append_left _ hk')
+      have h0 : Conf (fun k' => (k', A) ∈ (rt.ensureRealm A).sessRealm ++ [(k, A)]) r :=
+        (hi'.conf _ (realm?_mem hr)).mono (fun k' hk' => List.mem_append_left _ hk')
       refine (h0.step (.join k isLocal details roles cap) ?_).2
       intro k' l' d' ro' c' e
       cases e
